@@ -22,7 +22,7 @@ RULE = ("cases from rng(seed, 15, 0, i): a cluster graph (all pose types, parall
         "20..50 calls drawn from " + ", ".join(QUERIES) + " plus optimize(max_iter 1..3); snapshot compared around each call. distinct = fingerprint(spec, history); "
         "non-trivial = history with >= 1 numerical-Jacobian call on an SE(2)/SE(3) vertex and >= 1 optimize run.")
 REQ = ["eval:query-leaves-state-unchanged", "eval:repeat-returns-identical", "eval:optimize-changes-only-poses", "eval:operands-unchanged", "eval:copy-independent"] + ["query:" + q for q in QUERIES] + [
-    "class:numerical_jacobian_on_SE_vertex", "class:parallel_edges", "class:no_fixed_vertex_prior_anchored", "class:graph_loaded_from_g2o", "class:shared_pose_storage", "class:estimate_object_reused_as_initial_pose", "class:numerical_jacobian_at_stored_plus_pi"]
+    "class:numerical_jacobian_on_SE_vertex", "class:parallel_edges", "class:no_fixed_vertex_prior_anchored", "class:graph_loaded_from_g2o", "class:shared_pose_storage", "class:estimate_object_reused_as_initial_pose", "class:numerical_jacobian_at_stored_plus_pi", "class:snapshot_graph_shares_the_edge_objects", "class:other_graph_edited_in_place_by_its_owner", "class:snapshot_graph_(shares_the_edge_objects)_optimized"]
 PLAN = {
     "quick": {"cases": 480, "soft_s": 80, "min_nontrivial": 150, "require": REQ},
     "thorough": {"cases": 24000, "soft_s": 1400, "min_nontrivial": 6000, "require": REQ},
@@ -238,6 +238,16 @@ def run_case(ctx, i, rng):
                 e.vertices[1].pose = e.estimate
                 ctx.count("class:estimate_object_reused_as_initial_pose")
                 break
+    g_snap = None
+    if rng.random() < 0.25:
+        # the "keep the initial guess around" pattern: a snapshot graph over *copies* of the vertices that lists the same edge objects, built first;
+        # the working graph is (re)built last and therefore owns the edge bindings
+        try:
+            g_snap = M.Graph(list(g._edges), [M.Vertex(v.id, v.pose.copy(), bool(v.fixed)) for v in g._vertices])
+            g = M.Graph(list(g._edges), list(g._vertices))
+            ctx.count("class:snapshot_graph_shares_the_edge_objects")
+        except Exception:
+            g_snap = None
     L = int(rng.integers(20, 51))
     scratch = tempfile.mkdtemp(prefix="c15-", dir=os.environ.get("VF_SCRATCH"))
     hist = []
@@ -263,6 +273,43 @@ def run_case(ctx, i, rng):
                 ctx.check("optimize-changes-only-poses", not d, {"fix_first_pose": ffp}, {"differences": d[:5], "history": hist[-6:], "kwargs": kw}, case)
                 hist.append("optimize(%s)" % kw)
                 n_opt += 1
+                continue
+            u_other = rng.random()
+            if u_other < 0.08:
+                # something happens to *another* live graph: its owner edits it in place, or it is optimized; this graph's state and answers stay as they are
+                before = snap(g)
+                with np.errstate(all="ignore"):
+                    try:
+                        c_before = canon(g.calc_chi2())
+                    except Exception:
+                        c_before = None
+                    what = "other graph edited in place by its owner"
+                    try:
+                        if g_snap is not None and u_other < 0.04:
+                            what = "snapshot graph (shares the edge objects) optimized"
+                            M.quiet_optimize(g_snap, max_iter=int(rng.integers(1, 3)), tol=0.0)
+                        else:
+                            for eo in g_other._edges:
+                                eo.information *= 0.25
+                                if isinstance(eo.estimate, np.ndarray) and eo.estimate.ndim == 1:
+                                    eo.estimate[0] = float(eo.estimate[0]) + 0.5
+                                if isinstance(getattr(eo, "offset", None), np.ndarray):
+                                    eo.offset[0] = float(eo.offset[0]) + 0.5
+                            for vo in g_other._vertices:
+                                vo.pose[0] = float(vo.pose[0]) + 0.5
+                    except Exception as ex:
+                        ctx.count("other_graph_operation_raised:" + type(ex).__name__)
+                    try:
+                        c_after = canon(g.calc_chi2())
+                    except Exception:
+                        c_after = None
+                d = diff_snap(before, snap(g))
+                same_answer = (c_before is None and c_after is None) or (c_before is not None and c_after is not None and canon_equal(c_before, c_after))
+                ctx.check("query-leaves-state-unchanged", not d and same_answer, {"query": what}, {"differences": d[:5], "chi2": [str(c_before)[:40], str(c_after)[:40]], "history": hist[-6:]}, case)
+                ctx.count("class:" + what.replace(" ", "_"))
+                hist.append(what)
+                if d:
+                    break
                 continue
             q = QUERIES[int(rng.integers(len(QUERIES)))]
             ctx.count("query:" + q)
